@@ -50,6 +50,7 @@ func init() {
 			{ID: "C01.20", Desc: "the stale-while-revalidate window is measured with the current age", Run: func(c *Ctx) { ruleSWRWindowAge(c, "C01.20") }, MinSites: 1},
 			{ID: "C01.21", Desc: "the entry's Date is the decoded Date field", Run: func(c *Ctx) { ruleDateAccessorPure(c, "C01.21") }, MinSites: 1},
 			{ID: "C01.22", Desc: "header dates are decoded leniently everywhere", Run: func(c *Ctx) { ruleDatesThroughTheDecoder(c, "C01.22") }, MinSites: 1},
+			{ID: "C01.23", Desc: "age and lifetime saturate at the same bound", Run: func(c *Ctx) { ruleAgeNotCappedLower(c, "C01.23") }, MinSites: 1},
 		},
 	})
 }
